@@ -115,6 +115,25 @@ class FuncModel:
             return d, a.value
         return None
 
+    def value_defs(self, name: str, at: N | None, depth: int = 0) -> list[tuple[N, ast.expr | None]]:
+        """Definitions of `name` reaching `at`, looking through plain copies `a = b` (as left behind by the
+        inline pre-pass or by a cautious refactoring): (defining node, value expression or None)."""
+        out = []
+        if at is None:
+            return out
+        for d in self.cfg.reaching_defs(name, at):
+            a = d.ast if d.kind == "stmt" else None
+            v = None
+            if isinstance(a, ast.Assign) and len(a.targets) == 1 and isinstance(a.targets[0], ast.Name) and a.targets[0].id == name:
+                v = a.value
+            elif isinstance(a, ast.AnnAssign) and isinstance(a.target, ast.Name) and a.target.id == name:
+                v = a.value
+            if isinstance(v, ast.Name) and depth < 6 and v.id != name:
+                out += self.value_defs(v.id, d, depth + 1)
+            else:
+                out.append((d, v))
+        return out
+
     # ----------------------------------------------------------------- purity / transparency
     def _callee_name(self, c: ast.Call) -> str:
         if isinstance(c.func, ast.Name):
@@ -147,7 +166,7 @@ class FuncModel:
             d = dotted(e.value)
             if d and d.endswith(".config"):
                 return True
-            return False
+            return self.is_pure(e)  # element read `xs[i]` (stale once xs or i is written)
         if isinstance(e, (ast.BoolOp, ast.Compare)) or (isinstance(e, ast.UnaryOp) and isinstance(e.op, ast.Not)):
             return self.is_pure(e)
         if isinstance(e, (ast.BinOp, ast.IfExp)):
